@@ -974,22 +974,6 @@ Definition osc_entry (xs : list xattr) : tentry :=
 Definition osc_a : list tentry := [osc_entry [x_user_a; x_user_b]].
 Definition osc_b : list tentry := [osc_entry [x_user_b; x_user_a]].
 
-(* Without the reversal in sqfs2tar's write_entry every conversion round swaps
-   the xattr order: the image in the right shape is NOT a fixpoint, the
-   archives alternate with period 2 (the defect F23). *)
-Lemma old_sqfs2tar_oscillates :
-  Forall entry_ok osc_a /\ Forall img_shape osc_a /\
-  convert_old osc_a = RA_Ok osc_b /\ convert_old osc_b = RA_Ok osc_a /\
-  write_archive_old osc_b <> write_archive_old osc_a.
-Proof.
-  split; [|split; [|split; [|split]]].
-  - constructor; [|constructor]. apply entry_okb_sound. vm_compute. reflexivity.
-  - constructor; [|constructor]. apply img_shapeb_sound. vm_compute. reflexivity.
-  - vm_compute. reflexivity.
-  - vm_compute. reflexivity.
-  - apply list_eqb_false. vm_compute. reflexivity.
-Qed.
-
 (* the repaired sqfs2tar on the same image *)
 Lemma new_sqfs2tar_stable : convert osc_a = RA_Ok osc_a.
 Proof. vm_compute. reflexivity. Qed.
@@ -1021,6 +1005,23 @@ Lemma settledb_sound es : forall tbl, settledb tbl es = true -> settled tbl es.
 Proof.
   induction es as [|t es IH]; intros tbl H; [exact I|]. cbn [settledb settled] in *.
   apply andb_prop in H. destruct H as [H1 H2]. split; [apply xlist_eqb_true; exact H1|apply IH; exact H2].
+Qed.
+
+(* Without the reversal in sqfs2tar's write_entry every conversion round swaps
+   the xattr order: the image in the right shape is NOT a fixpoint, the
+   archives alternate with period 2 (the defect F23). *)
+Lemma old_sqfs2tar_oscillates :
+  Forall entry_ok osc_a /\ Forall img_shape osc_a /\ settled [] osc_a /\
+  convert_old osc_a = RA_Ok osc_b /\ convert_old osc_b = RA_Ok osc_a /\
+  write_archive_old osc_b <> write_archive_old osc_a.
+Proof.
+  split; [|split; [|split; [|split; [|split]]]].
+  - constructor; [|constructor]. apply entry_okb_sound. vm_compute. reflexivity.
+  - constructor; [|constructor]. apply img_shapeb_sound. vm_compute. reflexivity.
+  - apply settledb_sound. vm_compute. reflexivity.
+  - vm_compute. reflexivity.
+  - vm_compute. reflexivity.
+  - apply list_eqb_false. vm_compute. reflexivity.
 Qed.
 
 (* two files sharing keys: the first round only rearranges the xattrs of the
